@@ -9,7 +9,8 @@ from ..types import Tuple, Callable, Union, Optional
 
 
 def guided_relu_policy(max_value: Optional[float] = None,
-                       threshold: float = 0.0) -> Callable:
+                       threshold: float = 0.0,
+                       negative_slope: float = 0.0) -> Callable:
     """
     Generate a guided relu activation function.
     Some models have relu with different threshold and plateau settings than a classic relu,
@@ -22,13 +23,16 @@ def guided_relu_policy(max_value: Optional[float] = None,
         If specified, the maximum value for the ReLU.
     threshold
         If specified, the threshold for the ReLU.
+    negative_slope
+        If specified, the slope of the ReLU for values below the threshold.
 
     Returns
     -------
     guided_relu
         A guided relu activation function.
     """
-    relu = tf.keras.layers.ReLU(max_value=max_value, threshold=threshold)
+    relu = tf.keras.layers.ReLU(max_value=max_value, negative_slope=negative_slope,
+                                threshold=threshold)
 
     @tf.custom_gradient
     def guided_relu(inputs: tf.Tensor) -> Tuple[tf.Tensor, Callable]:
@@ -60,7 +64,8 @@ def guided_relu_policy(max_value: Optional[float] = None,
 
 
 def deconv_relu_policy(max_value: Optional[float] = None,
-                       threshold: float = 0.0) -> Callable:
+                       threshold: float = 0.0,
+                       negative_slope: float = 0.0) -> Callable:
     """
     Generate a deconv relu activation function.
     Some models have relu with different threshold and plateau settings than a classic relu,
@@ -73,13 +78,16 @@ def deconv_relu_policy(max_value: Optional[float] = None,
         If specified, the maximum value for the ReLU.
     threshold
         If specified, the threshold for the ReLU.
+    negative_slope
+        If specified, the slope of the ReLU for values below the threshold.
 
     Returns
     -------
     deconv_relu
         A deconv relu activation function.
     """
-    relu = tf.keras.layers.ReLU(max_value=max_value, threshold=threshold)
+    relu = tf.keras.layers.ReLU(max_value=max_value, negative_slope=negative_slope,
+                                threshold=threshold)
 
     @tf.custom_gradient
     def deconv_relu(inputs: tf.Tensor) -> Tuple[tf.Tensor, Callable]:
@@ -110,7 +118,8 @@ def deconv_relu_policy(max_value: Optional[float] = None,
 
 
 def open_relu_policy(max_value: Optional[float] = None,
-                     threshold: float = 0.0) -> Callable:
+                     threshold: float = 0.0,
+                     negative_slope: float = 0.0) -> Callable:
     """
     Generate a relu activation function which allows gradients to pass.
 
@@ -120,13 +129,16 @@ def open_relu_policy(max_value: Optional[float] = None,
         If specified, the maximum value for the ReLU.
     threshold
         If specified, the threshold for the ReLU.
+    negative_slope
+        If specified, the slope of the ReLU for values below the threshold.
 
     Returns
     -------
     open_relu
         A relu which allows all gradients to pass.
     """
-    relu = tf.keras.layers.ReLU(max_value=max_value, threshold=threshold)
+    relu = tf.keras.layers.ReLU(max_value=max_value, negative_slope=negative_slope,
+                                threshold=threshold)
 
     @tf.custom_gradient
     def open_relu(inputs: tf.Tensor) -> Tuple[tf.Tensor, Callable]:
@@ -217,7 +229,8 @@ def override_relu_gradient(model: tf.keras.Model, relu_policy: Callable) -> tf.k
         elif is_relu(layer):
             max_value = layer.max_value if hasattr(layer, 'max_value') else None
             threshold = layer.threshold if hasattr(layer, 'threshold') else None
-            cloned_model.layers[layer_id].call = relu_policy(max_value, threshold)
+            negative_slope = layer.negative_slope if hasattr(layer, 'negative_slope') else 0.0
+            cloned_model.layers[layer_id].call = relu_policy(max_value, threshold, negative_slope)
 
     return cloned_model
 
